@@ -2,13 +2,37 @@ use std::io;
 
 use noodles_vcf as vcf;
 use vcf::record::{
-    genotypes::sample::value::genotype::Genotype as VcfGenotype, Record as VcfRecord,
+    genotypes::{
+        keys::key,
+        sample::{value::genotype::Genotype as VcfGenotype, Value},
+    },
+    Genotypes as VcfGenotypes, Record as VcfRecord,
 };
 
 use crate::input::{
     genotype::{self, Genotype},
     ReadStatus, Sample,
 };
+
+/// Returns the parsed GT value of each sample.
+///
+/// A sample whose GT value is missing (`.`, possibly alongside other FORMAT fields) yields `None`.
+pub(super) fn sample_genotypes(genotypes: &VcfGenotypes) -> io::Result<Vec<Option<VcfGenotype>>> {
+    genotypes
+        .values()
+        .map(|sample| match sample.get(&key::GENOTYPE) {
+            Some(Some(Value::String(s))) => s
+                .parse()
+                .map(Some)
+                .map_err(|e| io::Error::new(io::ErrorKind::InvalidData, e)),
+            Some(None) | None => Ok(None),
+            Some(Some(_)) => Err(io::Error::new(
+                io::ErrorKind::InvalidData,
+                "invalid genotype (GT) value type",
+            )),
+        })
+        .collect()
+}
 
 pub struct Reader<R> {
     pub inner: vcf::Reader<R>,
@@ -44,11 +68,7 @@ where
         match self.inner.read_record(&self.header, &mut self.buf) {
             Ok(0) => ReadStatus::Done,
             Ok(_) => {
-                let result = self
-                    .buf
-                    .genotypes()
-                    .genotypes()
-                    .map_err(|e| io::Error::new(io::ErrorKind::InvalidData, e));
+                let result = sample_genotypes(self.buf.genotypes());
 
                 match result {
                     Ok(genotypes) => ReadStatus::Read(genotypes),
@@ -102,6 +122,10 @@ impl From<Option<VcfGenotype>> for genotype::Result {
                     }
                     _ => genotype::Result::Skipped(genotype::Skipped::Missing),
                 },
+                // A single missing allele is how a wholly missing genotype is spelled (e.g. in BCF)
+                [a] if a.position().is_none() => {
+                    genotype::Result::Skipped(genotype::Skipped::Missing)
+                }
                 _ => genotype::Result::Error(genotype::Error::PloidyError),
             },
             None => genotype::Result::Skipped(genotype::Skipped::Missing),
